@@ -878,6 +878,10 @@ func luaModulo(lhs, rhs LNumber) LNumber {
 	if frhs > 0 && v < 0 || frhs < 0 && v > 0 {
 		v += frhs
 	}
+	if v == 0 {
+		// a - floor(a/b)*b is +0 when the division is exact (math.Mod keeps the dividend's sign)
+		v = 0
+	}
 	return LNumber(v)
 }
 
